@@ -242,8 +242,23 @@ class AbsEval:
             return None if v.k == 'any' else v.k
         return None
 
+    # pure methods of str / bytes literals that are folded (constant folding, no I/O, total)
+    _FOLD_METHODS = ('startswith', 'endswith', 'strip', 'lstrip', 'rstrip', 'lower', 'upper',
+                     'split', 'rsplit', 'replace', 'count', 'join', 'removeprefix',
+                     'removesuffix', 'isdigit')
+
     def _call(self, e, _depth):
         f = e.func
+        if isinstance(f, ast.Attribute) and f.attr in self._FOLD_METHODS and not e.keywords:
+            recv = self.eval(f.value, _depth + 1)
+            if isinstance(recv, Const) and isinstance(recv.v, (str, bytes)):
+                args = [self.eval(a, _depth + 1) for a in e.args]
+                if all(isinstance(a, Const) for a in args):
+                    try:
+                        return Const(getattr(recv.v, f.attr)(*[a.v for a in args]))
+                    except Exception:
+                        return None
+            return None
         if isinstance(f, ast.Name):
             if f.id == 'isinstance' and len(e.args) == 2:
                 k = self._kind(self.eval(e.args[0], _depth + 1))
